@@ -23,7 +23,8 @@ RULE = ("Random arc subsets (independent arcs, density 0, 0.1..0.9, 1) of the or
         "conversions; the matrix has a 1 exactly at the arcs; obtain_vertices == rows with arcs; obtain_leaf_vertices(v, d) for "
         "d = 0..k+1 from live and dead roots gives the multiset of end points of all d-step walks from both representations; "
         "matrix + one arc that is not a shift (sampled (u, v)) -> ValueError exactly. Non-trivial: some vertex has out-degree "
-        "strictly between 0 and 4; distinct = hash of (k, arcs).")
+        "strictly between 0 and 4; distinct = hash of (k, arcs)."
+        ' Also: hand-built latter maps with keys and follower lists in arbitrary order, re-wired matrices (one legal arc replaced by a non-shift arc, same number of ones), an earlier matrix re-read after a later conversion of the same order, and leaf queries repeated after an arc was removed in place from the same accessor / map objects.')
 
 
 def setup(ctx):
